@@ -799,9 +799,11 @@ def gen_jobs(ctx, n_jobs, long_small=0):
     #  * the seed 0 — the only falsy seed (`if seed:` instead of `if seed is not None:` leaves the generators unseeded);
     #  * selection switched on with tournament_k = 0 — `tournament_selection` then hands back the very same population list, so whatever the
     #    hall of fame shares with the population is transformed in place in the next generation.
-    for solver in ("evo", "hybrid"):
+    #    (numpy's and Python's generators are seeded separately; Python's `random` is consumed only by the tournament, so the seed-0 jobs run
+    #    with selection off AND on)
+    for solver, sel in (("evo", 0), ("evo", 1), ("hybrid", 1)):
         jobs.append({"solver": solver, "graph": rng.choice(graphs3 + graphs4), "n_emitter": 1, "n_hof": rng.randrange(1, 4), "n_pop": rng.randrange(4, 8),
-                     "n_stop": rng.randrange(3, 9), "sel": rng.randrange(2), "adapt": rng.randrange(2), "k": 2, "seed": 0, "det": 1, "backend": "s",
+                     "n_stop": rng.randrange(4, 9), "sel": sel, "adapt": rng.randrange(2), "k": 2, "seed": 0, "det": 1, "backend": "s",
                      "positions": 0})
     for solver in ("evo", "evo", "hybrid"):
         jobs.append({"solver": solver, "graph": rng.choice(graphs3 + graphs4), "n_emitter": 1, "n_hof": rng.randrange(2, 5), "n_pop": rng.randrange(5, 9),
